@@ -7,6 +7,8 @@ logical tree in every creation order x jobs x routing (sequential / pool, with
 every completion permutation of the pool) x hash-state cold/warm/touched.
 """
 
+CASE_TIMEOUT = 120  # seconds per pool task (the unchanged tree needs a small fraction of this)
+
 import itertools
 import json
 import os
